@@ -97,6 +97,44 @@ func runC13(r *run) {
 			a = append(a, "-", "-", hx(want))
 			emit(caseT{"render", a})
 		}
+		// recursion with a base case through one call site that has several arguments
+		for _, c := range [][2]string{
+			{"{% macro cell(a, b) %}[{{ a }}|{{ b }}]{% endmacro %}{% macro chain(n) %}{% if n > 0 %}{{ cell(n, chain(n - 1)) }}{% else %}end{% endif %}{% endmacro %}{{ chain(3) }}", "[3|[2|[1|end]]]"},
+			{"{% macro t(a, b, c) %}({{ a }},{{ b }},{{ c }}){% endmacro %}{% macro r(n) %}{% if n > 0 %}{{ t(n, r(n - 1), n) }}{% else %}.{% endif %}{% endmacro %}{{ r(3) }}", "(3,(2,(1,.,1),2),3)"},
+			{"{% macro f(n, acc=\"\") %}{% if n > 0 %}{{ f(n - 1, acc + n) }}{% else %}{{ acc }}{% endif %}{% endmacro %}{{ f(3) }}|{{ f(2, \"x\") }}", "321|x21"},
+			{"{% macro two(a, b) %}({{ a }}{{ b }}){% endmacro %}{{ two(two(1, 2), two(two(3, 4), 5)) }}", "((12)((34)5))"},
+		} {
+			for mode := 0; mode < 2; mode++ {
+				w := &world{}
+				src := c[0]
+				if mode == 1 {
+					// the same macros imported from a library
+					k := strings.LastIndex(src, "{% endmacro %}") + len("{% endmacro %}")
+					lib := strings.ReplaceAll(src[:k], ") %}", ") export %}")
+					var names []string
+					for _, part := range strings.Split(lib, "{% macro ")[1:] {
+						names = append(names, part[:strings.Index(part, "(")])
+					}
+					w.files = []map[string]string{{"reclib.tpl": lib}}
+					src = "{% import \"reclib.tpl\" " + strings.Join(names, ", ") + " %}" + src[k:]
+				}
+				a := w.args(src, c13Ctx())
+				emit(caseT{"render", append(a, "-", "-", hx(obsOK(c[1])))})
+			}
+		}
+		// a context key with the name of a macro: the macro (local, imported or aliased alike) is
+		// what the name means in the template
+		for _, c := range [][2]string{
+			{"{% macro heading(t) %}<h>{{ t }}</h>{% endmacro %}{{ heading(\"x\") }}", "<h>x</h>"},
+			{"{% import \"hl.tpl\" heading %}{{ heading(\"x\") }}", "<h>x</h>"},
+			{"{% import \"hl.tpl\" heading as title %}{{ title(\"x\") }}{{ heading }}", "<h>x</h>CTXH"},
+			{"{% import \"hl.tpl\" heading as p0, heading %}{{ p0(\"x\") }}{{ heading(\"y\") }}", "<h>x</h><h>y</h>"},
+		} {
+			w := &world{files: []map[string]string{{"hl.tpl": "{% macro heading(t) export %}<h>{{ t }}</h>{% endmacro %}"}}}
+			ctx := append(c13Ctx(), ctxEntry{"heading", gStr("CTXH")}, ctxEntry{"title", gStr("CTXT")})
+			a := w.args(c[0], ctx)
+			emit(caseT{"render", append(a, "-", "-", hx(obsOK(c[1])))})
+		}
 		// runaway recursion: 1..3 macros without a base case, local and through import
 		for k := 1; k <= 3; k++ {
 			for _, imported := range []bool{false, true} {
